@@ -274,6 +274,8 @@ COVERAGE_TEXT = ["Maximum length string", "Unspecified HTTP method: QUERY", "que
 
 def rand_url(rng, nasty):
     path = "".join(rng.choice(URL_CHARS if nasty else URL_CHARS[:27]) for _ in range(rng.choice([0, 1, 3, 8])))
+    if nasty:
+        path = rng.choice(["", "'", "''", "users('"]) + path + rng.choice(["", "'", "''", "')"])
     userinfo = rng.choice(["", "", "", "user:pw@", "tok@"])
     return f"http://{userinfo}127.0.0.1:8080/{path}"
 
@@ -306,6 +308,8 @@ def rand_interaction(rng):
     if it["meta"] == "coverage":
         it["coverage"] = {"description": rng.choice(COVERAGE_TEXT), "location": rng.choice(COVERAGE_TEXT),
                           "parameter": rng.choice([None] + COVERAGE_TEXT), "parameter_location": rng.choice([None, "query", "path", "he'ader"])}
+    if rng.random() < 0.3:
+        it["argv"] = DEFAULT_ARGV + rng.choice(ARGV_TAILS)
     if rng.random() < 0.15:
         it["response"] = None
     else:
@@ -315,7 +319,7 @@ def rand_interaction(rng):
         elif 0.23 <= fault < 0.24:
             enc = "undefined"
         elif 0.24 <= fault < 0.27:
-            enc = rng.choice(["it's", "'"])
+            enc = rng.choice(["it's", "'", "''x''", "'lead", "trail'", "a''b", "utf-8'", "a\x7fb", "a\x7fb", "x\ny"])
         it["response"] = {
             "status": rng.choice([200, 201, 204, 400, 404, 500, 599]),
             "message": rng.choice(["OK", "Not Found", "", "Caf\xe9 \"q\" \\ '", "\x7f\x85", "I'm a teapot"]),
@@ -450,15 +454,21 @@ def expected_status(it):
     return "FAILURE" if any(t is not None for _, t in it["checks"]) else "SUCCESS"
 
 
+DEFAULT_ARGV = ["st", "run", "http://127.0.0.1/openapi.json"]
+ARGV_TAILS = [[], [], ["-H", "X-Name: O'Brien"], ["--url", "http://h/it's"], ["''"], ["'lead", "trail'"], ["-H", "X: a''b'"], ["--checks", "all", "'"], ["-H", 'X: "dq" \\ # : -']]
+
+
+def command_of(argv):
+    return "st " + " ".join(argv[1:])
+
+
 def sq_sites(it, preserve):
-    """The values that vcr_writer puts between single quotes for this exchange (those that can vary)."""
-    sites = [("uri", it["uri"]), ("method", it["method"])]
+    """(site, value, quote doubled?) for what vcr_writer puts between single quotes for this exchange (those that can vary)."""
+    sites = [("command", command_of(it.get("argv") or DEFAULT_ARGV), True), ("uri", it["uri"], True), ("method", it["method"], False)]
     r = it["response"]
     if r is not None:
         if not preserve or r["content"]:
-            sites.append(("encoding", effective_encoding(r, preserve)))
-    if it["meta"] == "coverage" and it["coverage"]["parameter_location"] is None:
-        pass
+            sites.append(("encoding", effective_encoding(r, preserve), True))
     return sites
 
 
@@ -520,7 +530,8 @@ def vcr_region(it, preserve, sq_ok, names_ok):
     if it["meta"] == "none":
         return "meta_none"
     if not all(sq_ok):
-        return "sq_site_quote"
+        # uri / command / encoding double the quote since 059139b3: only an unprintable character or a line break is left
+        return "sq_site_unprintable"
     if not all(names_ok):
         return "header_name_quote"
     r = it["response"]
@@ -537,7 +548,7 @@ def stage_writers(chk, n):
         cases.append((rand_interaction(rng), rng.random() < 0.3, rng.random() < 0.5))
     exprs = []
     for it, _san, preserve in cases:
-        sq = clist([f"yaml_sq_decode (emit_sq {cstr(v)})" for _, v in sq_sites(it, preserve)], "(option str)")
+        sq = clist([f"yaml_sq_decode ({'emit_sq_escaped' if esc else 'emit_sq'} {cstr(v)})" for _, v, esc in sq_sites(it, preserve)], "(option str)")
         names = list(it["req_headers"]) + (list(it["response"]["headers"]) if it["response"] else [])
         nm = clist([f"yaml_dq_decode (emit_dq_raw {cstr(v)})" for v in names], "(option str)")
         vals = [v for vs in it["req_headers"].values() for v in vs] + ([v for vs in it["response"]["headers"].values() for v in vs] + [it["response"]["message"]] if it["response"] else [])
@@ -558,7 +569,7 @@ def stage_writers(chk, n):
             chk.disagree("evaluated theorem C16_json_site_roundtrip_partial on header values", case, vals, [mopt(v) for v in m_js])
         # --- VCR
         rec, ids = make_recorder([it])
-        text, exc = run_writer("vcr", [rec], False, preserve)
+        text, exc = run_writer("vcr", [rec], False, preserve, argv=it.get("argv"))
         problem = None
         if exc is not None:
             problem = f"vcr_writer raised {type(exc).__name__}: {exc}"
@@ -576,6 +587,8 @@ def stage_writers(chk, n):
                     problem = f"cassette holds entries {[e.get('id') for e in entries]} for delivered {ids}"
                 else:
                     diffs = compare_vcr_entry(entries[0], it, preserve)
+                    if doc.get("command") != command_of(it.get("argv") or DEFAULT_ARGV):
+                        diffs.append({"field": "command", "file": repr(doc.get("command")), "traffic": repr(command_of(it.get("argv") or DEFAULT_ARGV))})
                     if diffs:
                         problem = {"cassette differs from the traffic": diffs}
         if problem is None:
@@ -768,10 +781,11 @@ def clean_interaction(rng):
     while True:
         it = rand_interaction(rng)
         names = list(it["req_headers"]) + (list(it["response"]["headers"]) if it["response"] else [])
-        if "'" in it["uri"] or "@" in it["uri"] or it["meta"] == "none" or any(ch in n for n in names for ch in '"\\'):
+        if "@" in it["uri"] or it["meta"] == "none" or any(ch in n for n in names for ch in '"\\'):
             continue
-        if it["response"] is not None and (decode_kind(it["response"]["encoding"], it["response"]["content"]) == "raises" or "'" in (it["response"]["encoding"] or "")):
+        if it["response"] is not None and (decode_kind(it["response"]["encoding"], it["response"]["content"]) == "raises" or any(ord(ch) < 0x20 or ord(ch) == 0x7F for ch in (it["response"]["encoding"] or ""))):
             continue
+        it.pop("argv", None)
         if rng.random() < 0.5:
             it["uri"] += rng.choice(["?a=1&b=&a=2", "?q=x%20y", "?token", "", "?a=1#frag?x=2", "#f", "?a=b?c=d"])
         return it
@@ -1270,6 +1284,7 @@ def run_cli(raw, responder, extra, userinfo="", sanitize=None):
         out["received"] = [r for r in rec.take() if not r["target"].startswith("/openapi.json")]
         out["delivered"] = delivered
         out["scenarios"] = scenarios
+        out["argv"] = args
         out["writer_died"] = died
     finally:
         threading.excepthook = saved_hook
@@ -1347,6 +1362,10 @@ def check_cli_artifacts(chk, name, out, preserve, region_hint=None, sanitized=Fa
     y = yaml_load(out["vcr.yaml"] or "")
     if y[0] != "ok" or not isinstance(y[1], dict):
         bad(f"VCR cassette is not YAML ({y[1]})", (out["vcr.yaml"] or "")[:300])
+    elif yaml_load(out["vcr.yaml"] or "", c_loader=True) != y:
+        bad("VCR cassette: the libyaml loader does not read what the Python loader reads", yaml_load(out["vcr.yaml"] or "", c_loader=True)[0])
+    elif y[1].get("command") != "st " + " ".join(out["argv"]):
+        bad("VCR cassette: command line differs from the one that was run", [y[1].get("command"), out["argv"]])
     else:
         entries = y[1].get("http_interactions") or []
         got_ids = [e["id"] for e in entries]
@@ -1505,6 +1524,12 @@ def _run_named(kind):
         return run_cli(cli_schema(TWO_GETS), OK_JSON, FEW, userinfo="user:pw@"), True
     if kind == "unknown_charset":
         return run_cli(cli_schema(TWO_GETS), lambda item: (200, [("Content-Type", "text/plain; charset=bogus")], b"h\xe9llo"), FEW), False
+    if kind == "charset_quote_preserve":
+        return run_cli(cli_schema(TWO_GETS), lambda item: (200, [("Content-Type", "text/plain; charset=\"it's ''q\"")], b"hello"), FEW + ["--report-preserve-bytes"]), False
+    if kind == "argv_quote":
+        return run_cli(cli_schema(TWO_GETS), OK_JSON, FEW + ["-H", "X-Name: O'Brien ''x'"]), False
+    if kind == "charset_del_preserve":
+        return run_cli(cli_schema(TWO_GETS), lambda item: (200, [("Content-Type", "text/plain; charset=a\x7fb")], b"hello"), FEW + ["--report-preserve-bytes"]), False
     if kind == "charset_undefined":
         return run_cli(cli_schema(TWO_GETS), lambda item: (200, [("Content-Type", "text/plain; charset=undefined")], b"hello"), FEW), False
     raise ValueError(kind)
@@ -1526,7 +1551,7 @@ def cli_witness(kind):
     col = _Collect()
     if not out["delivered"]:
         return True, "no exchange delivered"
-    check_cli_artifacts(col, kind, out, False, sanitized=sanitized)
+    check_cli_artifacts(col, kind, out, kind.endswith("_preserve"), sanitized=sanitized)
     return bool(col.problems), col.problems[:3]
 
 
@@ -1564,7 +1589,7 @@ def stage_cli(chk, quick):
         if check_cli_artifacts(chk, name, out, preserve, sanitized=sanitized):
             stats["clean"] += 1
     # the three repaired behaviours, as ordinary oracle runs (with their non-vacuity conditions)
-    for kind in ("junit_rediscovered", "har_userinfo", "unknown_charset"):
+    for kind in ("junit_rediscovered", "har_userinfo", "unknown_charset", "odata_path_quote", "charset_quote_preserve", "argv_quote"):
         out, sanitized = run_named(kind)
         stats["runs"] += 1
         stats["exchanges"] += len(out["delivered"])
@@ -1585,7 +1610,11 @@ def stage_cli(chk, quick):
             chk.disagree("the userinfo run recorded URLs without userinfo (nothing to look at)", {"scenario": kind}, [i.request.uri for _, i in out["delivered"]][:3], None)
         if kind == "unknown_charset" and not all(inter.response is not None and inter.response.encoding == "bogus" for _, inter in out["delivered"]):
             chk.disagree("the bogus-charset run recorded no response with encoding bogus (nothing to look at)", {"scenario": kind}, None, None)
-        if check_cli_artifacts(chk, kind, out, False, sanitized=sanitized):
+        if kind == "odata_path_quote" and not all("('" in inter.request.uri for _, inter in out["delivered"]):
+            chk.disagree("the OData-path run recorded URLs without a single quote (nothing to look at)", {"scenario": kind}, [i.request.uri for _, i in out["delivered"]][:3], None)
+        if kind == "charset_quote_preserve" and not all(inter.response is not None and "'" in (inter.response.encoding or "") for _, inter in out["delivered"]):
+            chk.disagree("the quoted-charset run recorded no response encoding with a single quote (nothing to look at)", {"scenario": kind}, None, None)
+        if check_cli_artifacts(chk, kind, out, kind.endswith("_preserve"), sanitized=sanitized):
             stats["clean"] += 1
     chk.stages["oracle_search_cli_reports"] = stats
 
